@@ -1,5 +1,7 @@
 import ALock.Lemmas.Barrier
 import ALock.Atomic.Calls
+import ALock.Lemmas.Accept
+import ALock.Props.C01
 
 /-!
 # C09 — Barrier: a generation releases exactly when its n-th waiter arrives
@@ -162,3 +164,21 @@ namespace ALock.Atomic.Calls
 theorem C09_calls_ok : fileShapes "src/barrier.rs" = barrierExpected := by decide
 
 end ALock.Atomic.Calls
+
+namespace ALock.Accept.Barrier
+open ALock.Atomic.Mutex
+
+/-- **C09 (executions of the real crate with injected preemptions).** The Barrier's only state word
+is its state mutex's; a recorded trace of `wait` polls and cancellations, preempted before any of
+their atomic operations by other polls, that the acceptor accepts is a run of the
+atomic-granularity Mutex model: the counters `count` / `generation_id` are only ever touched by the
+one holder of that mutex (the serialisation the poll-granular theorems assume), and no call
+returns holding it. -/
+theorem C09_accepted (n : Nat) (tr : List TEv) (st' : Mutex.St)
+    (h : acceptAll (Mutex.init n) tr = .ok st') :
+    holders st'.sys ≤ 1 ∧ st'.sys.st = holders st'.sys + 2 * starvedN st'.sys := by
+  obtain ⟨l, e⟩ := accepted_reachable h
+  rw [e]
+  exact C01_interleaved ords l
+
+end ALock.Accept.Barrier
